@@ -254,6 +254,11 @@ impl Ics {
     fn setup_with(&self, h: &mut Hist, single_channel: bool, fixed: Option<(Vec<(usize, Option<u64>)>, Option<u64>)>, two_colliding: Option<bool>) -> Option<World> {
         let pl = pool();
         let mut c = Chain::new(h.rng.range(10, 5000), h.rng.range(1_600_000_000, 1_800_000_000));
+        let (fb, fs) = h.rng.far_future();
+        c.advance(fb, fs);
+        if fb + fs > 0 {
+            h.out.count("worlds_far_in_the_future");
+        }
         let jitter = h.rng.below(1_000_000_000);
         let t0 = c.time_ns();
         c.set_time_ns(t0 + jitter, 0);
